@@ -229,6 +229,19 @@ func (c *Ctx) useSiteConstants() map[string]string {
 			out[fnm+": body"] = "missing"
 			continue
 		}
+		// straight-line codecs: the canonical expression of every result (which
+		// operand is masked, shifted, or-ed with what) — independent of
+		// statement order and of the operand order of commutative operators
+		if len(fn.Blocks) == 1 && fnm != "(*Segment).getDocStoredOffsets" {
+			if ret, ok := fn.Blocks[0].Instrs[len(fn.Blocks[0].Instrs)-1].(*ssa.Return); ok && len(ret.Results) > 0 {
+				var rs []string
+				for _, res := range ret.Results {
+					rs = append(rs, canonExpr(res, 0))
+				}
+				out[fnm+": arithmetic constants"] = "returns " + strings.Join(rs, " , ")
+				continue
+			}
+		}
 		var ks []string
 		for _, b := range fn.Blocks {
 			for _, ins := range b.Instrs {
@@ -239,13 +252,20 @@ func (c *Ctx) useSiteConstants() map[string]string {
 				if fnm == "(*Segment).getDocStoredOffsets" && bin.Op.String() != "/" {
 					continue // only the block-selecting divisor is format; look-ahead sizes are not
 				}
-				for _, op := range []ssa.Value{bin.X, bin.Y} {
+				for oi, op := range []ssa.Value{bin.X, bin.Y} {
 					if k, ok := op.(*ssa.Const); ok && k.Value != nil && k.Value.Kind() == constant.Int {
-						ks = append(ks, bin.Op.String()+k.Value.ExactString())
+						other := bin.Y
+						if oi == 1 {
+							other = bin.X
+						}
+						ks = append(ks, canonArith(bin.Op.String(), oi == 0)+k.Value.ExactString()+"@"+strings.Join(paramDeps(other), "+"))
 					}
 				}
 			}
 		}
+		// a multiset: the order in which the tests are written, and which
+		// polarity of a comparison is spelled, are not part of the format
+		sort.Strings(ks)
 		out[fnm+": arithmetic constants"] = strings.Join(ks, " ")
 	}
 	// termSeparator initial value
@@ -271,6 +291,144 @@ func (c *Ctx) useSiteConstants() map[string]string {
 		}
 	}
 	return out
+}
+
+// paramDeps: the names of the parameters a value is computed from.
+func paramDeps(v ssa.Value) []string {
+	seen := map[ssa.Value]bool{}
+	set := map[string]bool{}
+	var walk func(v ssa.Value)
+	walk = func(v ssa.Value) {
+		if seen[v] {
+			return
+		}
+		seen[v] = true
+		switch x := v.(type) {
+		case *ssa.Parameter:
+			set[x.Name()] = true
+		case *ssa.BinOp:
+			walk(x.X)
+			walk(x.Y)
+		case *ssa.UnOp:
+			walk(x.X)
+		case *ssa.Convert:
+			walk(x.X)
+		case *ssa.ChangeType:
+			walk(x.X)
+		case *ssa.Phi:
+			for _, e := range x.Edges {
+				walk(e)
+			}
+		case *ssa.Call:
+			for _, a := range x.Call.Args {
+				walk(a)
+			}
+		case *ssa.Extract:
+			walk(x.Tuple)
+		}
+	}
+	walk(v)
+	var out []string
+	for n := range set {
+		out = append(out, n)
+	}
+	sort.Strings(out)
+	return out
+}
+
+// canonExpr prints a straight-line expression with the operands of
+// commutative operators sorted and conversions dropped.
+func canonExpr(v ssa.Value, depth int) string {
+	if depth > 12 {
+		return "…"
+	}
+	switch x := v.(type) {
+	case *ssa.Const:
+		if x.Value == nil {
+			return "nil"
+		}
+		return x.Value.ExactString()
+	case *ssa.Parameter:
+		return x.Name()
+	case *ssa.Convert:
+		return canonExpr(x.X, depth+1)
+	case *ssa.ChangeType:
+		return canonExpr(x.X, depth+1)
+	case *ssa.UnOp:
+		return x.Op.String() + canonExpr(x.X, depth+1)
+	case *ssa.BinOp:
+		switch x.Op.String() {
+		case "&", "|", "^", "+", "*":
+			// associative and commutative: one flat, sorted operand list
+			var ops []string
+			var flat func(v ssa.Value, d int)
+			flat = func(v ssa.Value, d int) {
+				for {
+					switch cv := v.(type) {
+					case *ssa.Convert:
+						v = cv.X
+						continue
+					case *ssa.ChangeType:
+						v = cv.X
+						continue
+					}
+					break
+				}
+				if b2, ok := v.(*ssa.BinOp); ok && b2.Op == x.Op && d < 12 {
+					flat(b2.X, d+1)
+					flat(b2.Y, d+1)
+					return
+				}
+				ops = append(ops, canonExpr(v, depth+1))
+			}
+			flat(x, 0)
+			sort.Strings(ops)
+			return "(" + strings.Join(ops, x.Op.String()) + ")"
+		}
+		a, b := canonExpr(x.X, depth+1), canonExpr(x.Y, depth+1)
+		switch x.Op.String() {
+		case "==", "!=":
+			if b < a {
+				a, b = b, a
+			}
+		case ">", ">=":
+			// a > b  ==  b < a
+			op := map[string]string{">": "<", ">=": "<="}[x.Op.String()]
+			return "(" + b + op + a + ")"
+		}
+		return "(" + a + x.Op.String() + b + ")"
+	case *ssa.Call:
+		var as []string
+		for _, a := range x.Call.Args {
+			as = append(as, canonExpr(a, depth+1))
+		}
+		return calleeFullName(&x.Call) + "(" + strings.Join(as, ",") + ")"
+	case *ssa.Extract:
+		return canonExpr(x.Tuple, depth+1) + fmt.Sprintf("#%d", x.Index)
+	}
+	return v.Name()
+}
+
+// canonArith: a comparison with a constant is recorded by the boundary it
+// draws, not by the polarity or operand order it is spelled with: x<=K, x>K,
+// K>=x and K<x all become "le"; x<K, x>=K, K>x, K<=x become "lt"; == and !=
+// become "eq".  Arithmetic operators are kept.
+func canonArith(op string, constIsLeft bool) string {
+	switch op {
+	case "==", "!=":
+		return "eq"
+	case "<=", ">":
+		if constIsLeft {
+			return "lt"
+		}
+		return "le"
+	case "<", ">=":
+		if constIsLeft {
+			return "le"
+		}
+		return "lt"
+	}
+	return op
 }
 
 func (c *Ctx) extractGolden() *goldenTable {
@@ -359,6 +517,7 @@ func stripBraces(s string) string {
 func sameSignature(a, b string) bool {
 	tok := func(s string) []string {
 		s = stripBraces(s)
+		s = strings.ReplaceAll(s, "[]", "<elem>") // "[]" inside a carried name is not loop structure
 		s = strings.NewReplacer("[", " [ ", "]", " ] ").Replace(s)
 		return strings.Fields(s)
 	}
@@ -397,7 +556,7 @@ func sortedKeys(m map[string]string) []string {
 func init() {
 	register(&Rule{
 		Name:  "WIRE-AGREE",
-		Floor: 9,
+		Floor: 8,
 		Doc:   "for each writer/reader pair of an on-disk record the writer's and the reader's sequences of wire primitives (uvarint / fixed-width big-endian / raw bytes, loop structure; tail-first parsed trailers compared reversed) are equal; where builder and merger both write a record they agree with each other; footer fields correspond by name",
 		Run: func(c *Ctx, scope string, r *Report) {
 			w := newWireExtractor(c, "w")
@@ -535,7 +694,7 @@ func init() {
 
 	register(&Rule{
 		Name:  "FMT-CODEC",
-		Floor: 3,
+		Floor: 2,
 		Doc:   "ZSTDCompress/ZSTDDecompress are klauspost zstd EncodeAll/DecodeAll; every compress/decompress in the package goes through them; no other compression library is imported",
 		Run: func(c *Ctx, scope string, r *Report) {
 			for _, spec := range []struct{ fn, method string }{{"ZSTDCompress", "EncodeAll"}, {"ZSTDDecompress", "DecodeAll"}} {
